@@ -14,6 +14,7 @@ CLAUSES = {
     "Step_Seed": "first evaluation at y0 = Y(P (.) pf)", "Step_Iterate": "y_{n+1} = Y(J_n)",
     "Step_LoopRule": "loop continued iff the last change >= precision", "Step_Final": "returned fluxes = last evaluation",
     "Cl_Law": "J_i = P_i (pf_i - pp_i(y)) at every evaluation, one consistent basis for p*fraction",
+    "Cl_LawAtOwnComposition": "J_i = P_i (pf_i - pp_i(Y(J))) up to P_i |dpp_i/dy| precision: the law at the returned fluxes' own composition (no observation of the iteration needed)",
     "Cl_SelfConsistent": "|Y(J) - y*| <= precision when locally contractive",
     "Cl_VacuumExact": "no condition or p = 0: J_i = P_i pf_i", "Cl_PPIdentity": "J1/P1 + J2/P2 = pf1 + pf2 - p",
     "Cl_Homogeneous": "k*P gives k*J and the same permeate composition",
